@@ -523,3 +523,53 @@ pub fn swing_position(rng: &mut Rng) -> Pos {
         }
     }
 }
+
+/// Legal position in which double pawn steps that can be answered by an en-passant capture are
+/// one or two plies away: pawns of both sides still on their start squares with enemy pawns on
+/// the neighbouring files of their fourth rank, a few pieces around. At search depths 1-3 the
+/// double step is then the last ply before the horizon and the en-passant capture belongs to the
+/// capture search.
+pub fn ep_horizon_position(rng: &mut Rng) -> Pos {
+    loop {
+        let mut p = Pos::empty();
+        let wk = *rng.pick(&[4u8, 6, 2, 0, 7]);
+        let bk = *rng.pick(&[60u8, 62, 58, 56, 63]);
+        p.sq[wk as usize] = Some((Color::White, Kind::King));
+        p.sq[bk as usize] = Some((Color::Black, Kind::King));
+        for _ in 0..rng.range(2, 6) {
+            let white_steps = rng.chance(1, 2);
+            let f = rng.below(8) as i32;
+            // the pawn that will double-step and an enemy pawn beside its landing square
+            let (start_r, land_r, c) = if white_steps { (1, 3, Color::White) } else { (6, 4, Color::Black) };
+            let s0 = sq_at(f, start_r).unwrap();
+            let mid = sq_at(f, (start_r + land_r) / 2).unwrap();
+            let land = sq_at(f, land_r).unwrap();
+            if p.sq[s0 as usize].is_some() || p.sq[mid as usize].is_some() || p.sq[land as usize].is_some() {
+                continue;
+            }
+            p.sq[s0 as usize] = Some((c, Kind::Pawn));
+            for df in [-1, 1] {
+                if rng.chance(2, 3) {
+                    if let Some(t) = sq_at(f + df, land_r) {
+                        if p.sq[t as usize].is_none() {
+                            p.sq[t as usize] = Some((c.other(), Kind::Pawn));
+                        }
+                    }
+                }
+            }
+        }
+        for _ in 0..rng.range(0, 7) {
+            let s = rng.below(64) as usize;
+            if p.sq[s].is_some() {
+                continue;
+            }
+            let c = if rng.chance(1, 2) { Color::White } else { Color::Black };
+            let k = *rng.pick(&[Kind::Queen, Kind::Rook, Kind::Knight, Kind::Bishop, Kind::Knight, Kind::Bishop]);
+            p.sq[s] = Some((c, k));
+        }
+        p.stm = if rng.chance(1, 2) { Color::White } else { Color::Black };
+        if is_legal_position(&p) && has_legal_move(&p) {
+            return p;
+        }
+    }
+}
